@@ -764,11 +764,45 @@ def reexportShape (proj : Project) : Bool :=
   -- class bodies do not import
   (allProj proj fun _ cp st => cp.isEmpty || !isImportStmt st)
 
-/-- `WF` with the restriction `noReexport` replaced by `reexportShape` -/
+/-- `n` is defined (class / def / assignment) at the top level of module `t` -/
+def definesAny (proj : Project) (t : Nat) (n : Name) : Bool :=
+  (bodyOf proj t).any fun st => st.defName == some n
+
+/-- `from <package> import n`: pydoctor also calls `getProcessedModule('<package>.n')`.  When `n` is a submodule,
+that is an import edge (the submodule's rank is below the importer's).  When it is not, the lookup must not find
+a module through the package's alias map: `n` is not the name of a root module, the package does not star-import,
+and if the package binds `n` by an import it is `from t' import n' [as n]` of a top-level definition `n'` of `t'` -/
+def pkgFromOk (proj : Project) (rank : List Nat) : Bool :=
+  allProj proj fun m _ st =>
+    match st with
+    | .importFrom lvl M n _ =>
+      (match target proj m lvl M with
+       | some t =>
+         !isPkg proj t ||
+         (match modIdx proj (pathOf proj t ++ [n]) with
+          | some c => decide (rankOf rank c < rankOf rank m)
+          | none =>
+            !isRootName proj n && !(bodyOf proj t).any isStarStmt &&
+            (bodyOf proj t).all fun st' =>
+              !(isImportStmt st' && (explicitNames st').contains n) ||
+              (match st' with
+               | .importFrom l' M' n' _ =>
+                 (match target proj t l' M' with
+                  | some t' => definesAny proj t' n'
+                  | none => false)
+               | _ => false))
+       | none => true)
+    | _ => true
+
+/-- no component of a module name is of the form `name i` (a superseded duplicate) -/
+def modNamesOk (proj : Project) : Bool := proj.all fun md => md.path.all fun n => !isSupersededName n
+
+/-- `WF` with the restriction `noReexport` replaced by `reexportShape`, and the implicit submodule lookups of
+`from <package> import …` accounted for (`pkgFromOk`: no hidden import cycle through a package) -/
 def WFr (proj : Project) (rank : List Nat) : Bool :=
   modulesOk proj && pathsUnique proj && importsOk proj rank && boundOnce proj rank &&
   namesUnique proj && basesNonempty proj && noStarInClass proj && rootsReserved proj &&
-  namesOk proj && reexportShape proj
+  namesOk proj && reexportShape proj && pkgFromOk proj rank && modNamesOk proj
 
 /-- the qualified name under which the object defined at site `S` is documented once the re-exports
 `mv` says have happened have happened: below the re-exporter, if its top-level definition was moved -/
